@@ -28,6 +28,7 @@ func init() {
 			ruleSkipReadSiblings(r)
 			ruleDecompressedLength(r)
 			ruleDirectIOAligned(r)
+			ruleDirectIOWriterBuffer(r)
 			ruleAllocBounded(r)
 			ruleFitsWithoutSum(r)
 			ruleHeaderSizesChecked(r)
@@ -42,6 +43,7 @@ func init() {
 			ruleFormat(r)
 			ruleReaderErrflow(r)
 			ruleSkipBounded(r)
+			ruleTornRecordIsNotEOF(r)
 			ruleNilFlag(r)
 			ruleHeaderSizesChecked(r)
 		})
@@ -50,6 +52,7 @@ func init() {
 		[]string{"Kaitai vlq_base128_le = Go uvarint", "the generated Go file is what the schema compiles to (only enum and payload-length inputs are cross-checked)"},
 		func(r *Report) {
 			ruleKaitai(r)
+			ruleTornRecordIsNotEOF(r)
 			ruleHeaderSizesChecked(r)
 			ruleFormat(r)
 			ruleHeaderCrc(r)
